@@ -150,6 +150,8 @@ pub proof fn lemma_approve_lifetime(w: World, approved: Address, id: u32, live: 
         //@@ C11:lemma.approval_live_exactly_until
         cur_approved(at_ledger(appr_store(w, approved, id, live), seq2), id)
             == (if live != 0 && seq2 <= live { Some(approved) } else { None }),
+        appr_raw(appr_store(w, approved, id, live), id)
+            == (if live != 0 { Some(ApprovalData { approved: approved, live_until_ledger: live }) } else { None }),
         forall|id2: u32| id2 != id ==> #[trigger] appr_raw(appr_store(w, approved, id, live), id2) == appr_raw(w, id2),
         forall|o: Address, s: Address| #[trigger] oper_raw(appr_store(w, approved, id, live), o, s) == oper_raw(w, o, s),
 {
@@ -174,6 +176,7 @@ pub proof fn lemma_operator_lifetime(w: World, o: Address, s: Address, live: u32
     ensures
         //@@ C11:lemma.operator_live_exactly_until
         is_operator(at_ledger(oper_store(w, o, s, live), seq2), o, s) == (live != 0 && seq2 <= live),
+        oper_raw(oper_store(w, o, s, live), o, s) == (if live != 0 { Some(live) } else { None }),
         forall|o2: Address, s2: Address| !(o2 == o && s2 == s) ==> #[trigger] oper_raw(oper_store(w, o, s, live), o2, s2) == oper_raw(w, o2, s2),
         forall|id: u32| #[trigger] appr_raw(oper_store(w, o, s, live), id) == appr_raw(w, id),
 {
@@ -200,6 +203,7 @@ pub proof fn lemma_time_only_expires(w: World, seq2: u32)
         forall|id: u32| (#[trigger] cur_approved(at_ledger(w, seq2), id)).is_some() ==> cur_approved(at_ledger(w, seq2), id) == cur_approved(w, id),
         forall|o: Address, s: Address| #[trigger] is_operator(at_ledger(w, seq2), o, s) ==> is_operator(w, o, s),
         forall|id: u32| (#[trigger] appr_raw(at_ledger(w, seq2), id)).is_some() ==> appr_raw(at_ledger(w, seq2), id) == appr_raw(w, id),
+        forall|o: Address, s: Address| (#[trigger] oper_raw(at_ledger(w, seq2), o, s)).is_some() ==> oper_raw(at_ledger(w, seq2), o, s) == oper_raw(w, o, s),
 {
 }
 
@@ -226,11 +230,11 @@ pub open spec fn op_assume(w: World, op: NOp) -> bool {
         _ => true,
     }
 }
-/// the token an operation acts on
-pub open spec fn op_token(w: World, op: NOp) -> Option<u32> {
+/// the token an operation acts on (`c`: the sequential counter before the call)
+pub open spec fn tok(c: u32, op: NOp) -> Option<u32> {
     match op {
         NOp::Mint { to, id } => Some(id),
-        NOp::SeqMint { to } => Some(counter(w)),
+        NOp::SeqMint { to } => Some(c),
         NOp::Transfer { from, to, id } => Some(id),
         NOp::TransferFrom { spender, from, to, id } => Some(id),
         NOp::Burn { from, id } => Some(id),
@@ -239,6 +243,7 @@ pub open spec fn op_token(w: World, op: NOp) -> Option<u32> {
         NOp::ApproveForAll { owner, operator, live } => None,
     }
 }
+pub open spec fn op_token(w: World, op: NOp) -> Option<u32> { tok(counter(w), op) }
 pub open spec fn op_from(op: NOp) -> Option<Address> {
     match op {
         NOp::Transfer { from, to, id } => Some(from),
